@@ -11,7 +11,7 @@ from __future__ import annotations
 import ast
 from typing import Dict, List, Optional, Set, Tuple
 
-from ..model import Program, AnalysisError, FuncInfo, ClassInfo, walk_local, dotted
+from ..model import Program, AnalysisError, FuncInfo, ClassInfo, walk_local, dotted, parents_of
 from ..report import RuleResult, guard
 from ..astutil import src, site, calls_in, call_name, is_self_attr, kwarg, const_value
 from ..cfg import CFG
@@ -726,6 +726,35 @@ def dao_alt_ancestor(prog: Program) -> RuleResult:
                 "the first alternatively mapped ancestor along the MRO is taken",
                 f"the {side} takes the last match of its MRO scan (`{src(bad)[:50] if bad is not None else ''}`): below two alternatively mapped ancestors the object is mapped through the root mapping "
                 "while its DAO inherits the columns of the nearer one - to_dao reads a column the object does not have")
+    # ... and what that ancestor's table stores is the storage of its *mapping*: a constructor argument the mapping keeps under its own name
+    # (in another form) is read through the mapping for the classes below as well, never as the raw column
+    reader = sides["reader"]
+    takes = [x for x in walk_local(reader.node) if isinstance(x, ast.Assign) and any(isinstance(t, ast.Subscript) for t in x.targets) and isinstance(x.value, ast.Call) and call_name(x.value) == "getattr"
+             and "base" in src(x.value.args[0])]
+    par = parents_of(reader.node)
+    ok = bool(takes)
+    why = "the reader no longer takes arguments from the object the parent mapping rebuilt"
+    for x in takes:
+        cur, guards = x, []
+        while cur in par:
+            up = par[cur]
+            if isinstance(up, ast.If) and any(cur is st or cur in ast.walk(st) for st in up.body):
+                guards.append(up.test)
+            cur = up
+        for g in guards:
+            for h in [y for y in ast.walk(g) if isinstance(y, ast.UnaryOp) and isinstance(y.op, ast.Not) and isinstance(y.operand, ast.Call) and call_name(y.operand) == "hasattr"]:
+                # `not hasattr(self, argument)` alone lets the raw column win: it has to stand in a disjunction with "stored by the parent"
+                ors = [b for b in ast.walk(g) if isinstance(b, ast.BoolOp) and isinstance(b.op, ast.Or) and h in b.values]
+                if not any(any(isinstance(v, ast.Compare) and isinstance(v.ops[0], ast.In) for v in b.values) for b in ors):
+                    ok, why = False, f"`{src(h)}` alone decides that the DAO's own attribute is used"
+    fd = prog.lookup(dao.qual, "from_dao")
+    merges = [x for x in walk_local(fd.node) if isinstance(x, ast.Dict) and len(x.keys) >= 2 and all(k is None for k in x.keys)]
+    for m_ in merges:
+        names_ = [src(v) for v in m_.values]
+        if any("base" in n_ for n_ in names_) and "base" not in names_[-1]:
+            ok, why = False, f"`{src(m_)}` lets the DAO's raw columns override what came through the mapping"
+    r.check(ok, "from_dao#parent-storage-read-through-the-mapping", site(reader), "", "arguments the alternatively mapped parent stores are taken from the object its mapping rebuilt",
+            f"{why}: for SubThing(Thing) below a ThingMapping that keeps `name` in another form under the same name, the stored form comes back as the name")
     return r
 
 
